@@ -125,6 +125,9 @@ produceLoop:
 			verifTrace("recv", verifOutLine0(outJobs), len(outJobs))
 			verifTrace("tokrel")
 			<-outChanAvailableTokens
+			if len(outJobs) > 0 {
+				verifConsumerEvent(0, outJobs[0].line)
+			}
 			for i := range outJobs {
 				out := outJobs[i]
 				if err := out.err; err != nil {
@@ -152,6 +155,7 @@ produceLoop:
 			}
 		case readerErr := <-done:
 			verifTrace("recvdone", verifB(readerErr != nil))
+			verifConsumerEvent(1, 0)
 			if readerErr != nil {
 				return readerErr
 			}
